@@ -70,8 +70,8 @@ func monitorC10(cfg CheckConfig, res *hx.Result, traces []*Trace) error {
 			}
 		}
 		u := t.U
-		out := outsiderIndex(u)
-		outAddr := Dec(u.Addrs[out].Bytes())
+		nUniverse := len(u.Addrs)
+		dedicated := outsiderIndex(u)
 		chain := t.H.Ops[0].Init.Chain
 		// positions where a deliver may be inserted: after a begin or a deliver
 		pos := []int{}
@@ -86,11 +86,39 @@ func monitorC10(cfg CheckConfig, res *hx.Result, traces []*Trace) error {
 		for k := 0; k < perHistory; k++ {
 			at := pos[r.Intn(len(pos))]
 			executed := []*TxSpec{}
-			for i, op := range t.H.Ops[:at] {
-				if op.Kind == "deliver" && op.Tx.Garbage == nil && op.Tx.Chain == chain && !strings.HasPrefix(t.Impl[i].Obs, "code=1") {
+			for _, op := range t.H.Ops[:at] {
+				if op.Kind == "deliver" && op.Tx.Garbage == nil && op.Tx.Chain == chain {
 					executed = append(executed, op.Tx)
 				}
 			}
+			// the outsider: the dedicated key, or an address of the universe that is in no accepted
+			// keyper set at this point of the history (it may join one later)
+			out := dedicated
+			if r.Chance(50) {
+				aim := NewImpl(u)
+				for _, op := range t.H.Ops[:at] {
+					if op.Kind != "state" {
+						aim.Do(op)
+					}
+				}
+				cands := []int{}
+				for i := 0; i < nUniverse; i++ {
+					member := false
+					for _, c := range aim.App.Configs {
+						if c.IsKeyper(u.Addrs[i]) {
+							member = true
+						}
+					}
+					if !member {
+						cands = append(cands, i)
+					}
+				}
+				if len(cands) > 0 {
+					out = cands[r.Intn(len(cands))]
+					res.Count("c10:outsider-from-universe")
+				}
+			}
+			outAddr := Dec(u.Addrs[out].Bytes())
 			g := &genState{u: u, r: r, chain: chain, nonce: 1 << 32}
 			x, class := refusedTx(r, u, g, r.Intn(8), chain, executed, out)
 			if x == nil {
@@ -130,6 +158,25 @@ func monitorC10(cfg CheckConfig, res *hx.Result, traces []*Trace) error {
 					if a != b {
 						fail = fmt.Sprintf("a %s transaction changed the answer to a later call (op %d: %s): without=%q with=%q", class, j, tw.Lines[j], a, b)
 						break
+					}
+				}
+			}
+			// the injected transaction, replayed at a later point of the history, is refused
+			if fail == "" && x.Garbage == nil {
+				later := []int{}
+				for i := at + 2; i < len(ops); i++ {
+					if ops[i].Kind == "begin" || ops[i].Kind == "deliver" {
+						later = append(later, i+1)
+					}
+				}
+				if len(later) > 0 {
+					lp := later[r.Intn(len(later))]
+					ops3 := append(append(append([]*Op{}, ops[:lp]...), &Op{Kind: "check", Tx: x}, &Op{Kind: "deliver", Tx: x}), ops[lp:]...)
+					t3 := RunImpl(u, &History{Ops: ops3})
+					res.Count("c10:replay-of-injected")
+					if x.Chain == chain && (t3.Impl[lp].Obs == "code=0" || strings.HasPrefix(t3.Impl[lp+1].Obs, "code=0") || !strings.HasSuffix(t3.Impl[lp+1].Obs, "ev=[]")) {
+						fail = fmt.Sprintf("a replayed transaction (first included at op %d, refused as %s) is accepted at op %d: check=%s deliver=%s", at+1, class, lp+1, t3.Impl[lp].Obs, t3.Impl[lp+1].Obs)
+						ops = ops3
 					}
 				}
 			}
